@@ -138,6 +138,12 @@ def judge (impl : String) (exp : List (String × String × Bool × Bool)) : Stri
   | some why => "bad:" ++ why
   | none => "ok"
 
+/-- consecutive pairs (the preview texts of mode `pv`) -/
+def pairs {α : Type} : List α → List (List α)
+  | a :: b :: r => [a, b] :: pairs r
+  | [a] => [[a]]
+  | [] => []
+
 def verdict (mode : String) (segs : List CSeg) (impl : String) : String :=
   if mode == "tok" then "ok" else
   let segs' := if mode == "hdr" then (trimRev segs.reverse).reverse else segs
@@ -146,6 +152,9 @@ def verdict (mode : String) (segs : List CSeg) (impl : String) : String :=
   | none => "ok"       -- outside the property's grammar: only the model correspondence applies
   | some ls =>
     if empty then (if impl == "" then "ok" else "bad:line-count")
+    else if mode == "pv" then
+      -- every preview text starts from default attributes; inside one text a non-default attribute carries over its lines
+      judge impl ((pairs ls).flatMap (expectLines true {}))
     else judge impl (expectLines (mode == "multi" || mode == "hdr") {} ls)
 
 /-- returns (model observations, verdict on `impl`) -/
@@ -167,6 +176,7 @@ def handle (case : String) (impl : String) : Except String (String × String) :=
       match mode with
       | "one" => .ok (obs (parse whole), v)
       | "multi" => .ok ("/".intercalate ((parseLines {} lines).map obs), v)
+      | "pv" => .ok ("/".intercalate (((pairs lines).flatMap (parseLines {})).map obs), v)
       | "item" => .ok ("/".intercalate ((parseItems lines).map obs), v)
       | "hdr" =>
         let r := if whole.isEmpty then [] else headerLines whole
